@@ -1,5 +1,7 @@
 import sys
 pid=sys.argv[1]
+rnd=sys.argv[2] if len(sys.argv)>2 else ''
+tag=(rnd+'-' if rnd else '')+pid
 import json
 prop=''
 for l in open('/verif/properties.jsonl'):
@@ -7,22 +9,22 @@ for l in open('/verif/properties.jsonl'):
     if p['id']==pid: prop='PROPERTY %s — %s\n\nStatement: %s\n\nQuantifier: %s\n' % (p['id'],p['title'],p['statement'],p['quantifier']['text'])
 print(f"""You are helping test a verification effort for the Python library `ptera` (breuleux/ptera), an instrumentation library that rewrites function ASTs so a selector DSL can probe and override local variables along call paths.
 
-You have your own scratch git worktree of the library at /tmp/wt/{pid} (a checkout of the pinned commit). Work ONLY inside /tmp/wt/{pid} and /tmp/seed/{pid}/ . Do NOT read or touch /verif or /repo (anything there is off-limits: your work must be independent of it).
+You have your own scratch git worktree of the library at /tmp/wt/{tag} (a checkout of the current development commit). Work ONLY inside /tmp/wt/{tag} and /tmp/seed/{tag}/ . Do NOT read or touch /verif or /repo (anything there is off-limits: your work must be independent of it).
 
 Here is a semantic property the library is supposed to satisfy:
 
 {prop}
 
-YOUR TASK: produce ONE realistic change (a bug a maintainer could plausibly introduce during a refactor or an optimisation) to the library source under /tmp/wt/{pid}/ptera/ that BREAKS this property, while:
+YOUR TASK: produce {"TWO independent realistic changes (call them a and b; they must live in DIFFERENT functions, preferably different files or mechanisms, and each is delivered separately: directories /tmp/seed/"+tag+"/a and /tmp/seed/"+tag+"/b instead of /tmp/seed/"+tag+", each patch made against the clean checkout, NOT stacked). Each is ONE realistic change" if rnd else "ONE realistic change"} (a bug a maintainer could plausibly introduce during a refactor or an optimisation) to the library source under /tmp/wt/{tag}/ptera/ that BREAKS this property, while:
   1. the library still imports and the existing test suite still passes completely. Run it like this (cwd must be the worktree so that the worktree's ptera is imported):
-       cd /tmp/wt/{pid} && /venv/bin/python -m pytest -q -p no:cacheprovider --timeout=900 -x -q
+       cd /tmp/wt/{tag} && /venv/bin/python -m pytest -q -p no:cacheprovider --timeout=900 -x -q
      (269 tests must pass with your change.)
   2. the breakage needs something SPECIFIC to manifest — a particular multi-step sequence of operations, an unusual input, a particular nesting/recursion shape, a particular interleaving, or two cooperating sites that each look fine alone. It must NOT be something ordinary use would expose at once (if the most basic documented usage of the feature fails, the change is too blunt; find something subtler).
   3. the change is small (a few lines), compiles, and looks innocent.
 
-Deliverables, all under /tmp/seed/{pid}/ :
-  - patch.diff : output of `git -C /tmp/wt/{pid} diff` (must apply with `git apply` on a clean checkout of the same commit).
-  - demo.py : a small self-contained program, run as `cd <checkout> && /venv/bin/python /tmp/seed/{pid}/demo.py` (it must import ptera from the current working directory's checkout — put `import sys, os; sys.path.insert(0, os.getcwd())` at the top), that exits 0 on the unchanged library and exits non-zero (an assertion failure showing the property broken) with your patch applied. Functions probed by ptera must be defined in a real file (demo.py itself is fine) because ptera reads their source with inspect.
+Deliverables, all under /tmp/seed/{tag}/ :
+  - patch.diff : output of `git -C /tmp/wt/{tag} diff` (must apply with `git apply` on a clean checkout of the same commit).
+  - demo.py : a small self-contained program, run as `cd <checkout> && /venv/bin/python /tmp/seed/{tag}/demo.py` (it must import ptera from the current working directory's checkout — put `import sys, os; sys.path.insert(0, os.getcwd())` at the top), that exits 0 on the unchanged library and exits non-zero (an assertion failure showing the property broken) with your patch applied. Functions probed by ptera must be defined in a real file (demo.py itself is fine) because ptera reads their source with inspect.
   - meta.json : {{"property": "{pid}", "summary": "<what was changed>", "needs": "<what specific condition is needed for the breakage to manifest>", "files": [...], "ran": ["<commands you ran and their outcome>"]}}
 
-Verify all three claims yourself before finishing: (a) pytest passes with the patch, (b) demo.py fails with the patch, (c) on the unchanged code demo.py passes (save your change with `git -C /tmp/wt/{pid} diff > /tmp/seed/{pid}/patch.diff`, then `git -C /tmp/wt/{pid} checkout -- .`, run, then `git -C /tmp/wt/{pid} apply /tmp/seed/{pid}/patch.diff`; do NOT use git stash: the stash is shared between worktrees). Leave the worktree with the patch applied (uncommitted). In your final message, summarise the change and what it needs to manifest in 5 lines.""")
+Verify all three claims yourself before finishing: (a) pytest passes with the patch, (b) demo.py fails with the patch, (c) on the unchanged code demo.py passes (save your change with `git -C /tmp/wt/{tag} diff > /tmp/seed/{tag}/patch.diff`, then `git -C /tmp/wt/{tag} checkout -- .`, run, then `git -C /tmp/wt/{tag} apply /tmp/seed/{tag}/patch.diff`; do NOT use git stash: the stash is shared between worktrees). Leave the worktree with the patch applied (uncommitted). In your final message, summarise the change and what it needs to manifest in 5 lines.{" NOTE for the two-change task: wherever the text above says /tmp/seed/"+tag+"/<file>, deliver /tmp/seed/"+tag+"/a/<file> for change a and /tmp/seed/"+tag+"/b/<file> for change b (patch.diff, demo.py, meta.json each); verify claims (a)(b)(c) for each change on its own; leave the worktree clean (no patch applied) at the end." if rnd else ""}""")
